@@ -21,7 +21,7 @@ def main():
     shutil.copy(os.path.join(src, "patch.diff"), os.path.join(dst, "patch.diff"))
     txt = open(os.path.join(src, "demo.py")).read()
     # the demonstration was written against the sub-agent's worktree; make it tree-agnostic (PYTHONPATH decides)
-    txt = re.sub(r"/tmp/wt2?/C\d+", "/repo", txt)
+    txt = re.sub(r"/tmp/wt\d?/C\d+", "/repo", txt)
     open(os.path.join(dst, "demo.py"), "w").write(txt)
     if os.path.exists(os.path.join(src, "notes.md")):
         shutil.copy(os.path.join(src, "notes.md"), os.path.join(dst, "notes.md"))
